@@ -32,7 +32,7 @@ def is_stream_type(t):
 def carries_text(t):
     """text, a stream, or an aggregate/container that can hold text"""
     t = t or ''
-    return is_text_type(t) or is_stream_type(t) or 'pair<' in t or 'vector<' in t or 'FunctionSignature' in t or 'auto' in t
+    return is_text_type(t) or is_stream_type(t) or 'pair<' in t or 'vector<' in t or 'FunctionSignature' in t or 'TemplateFunction' in t or 'auto' in t
 
 
 class Summary:
@@ -97,6 +97,8 @@ class Prov:
         for n in nodes:
             if n.get('k') == 'decl':
                 types[n['n']] = n.get('ct') or n.get('t') or ''
+            elif n.get('k') == 'loop' and n.get('kind') == 'range' and n.get('var'):
+                types[n['var']] = n.get('vt') or ''
         unnamed_loop = frozenset()
         sm = self.sum[f['id']]
         ctx = {'own_rets': own_rets, 'f': f, 'env': env, 'types': types, 'pidx': pidx, 'record': False, 'sm': sm, 'binding': unnamed_loop, 'lams': lams}
@@ -329,6 +331,9 @@ class Prov:
         t = e.get('t') or ''
         if not carries_text(t):
             return frozenset()
+        # name carried inside a function signature / template object: the object's label is the label of what it was built from
+        if mname(e) == 'getName' and e.get('recv') is not None and any(k_ in (e.get('cls') or '') for k_ in ('TemplateFunction', 'FunctionSignature')):
+            return self.lab(e['recv'], ctx)
         tids = [tid for tid in self.fx.targets(e) if tid in self.fx.F and self.fx.F[tid].get('body')]
         if tids:
             l = frozenset()
